@@ -81,6 +81,8 @@ class UDPListener:
         }, ensure_ascii=False, separators=(',', ':')).encode('utf-8')
 
     def run(self):
+        if not self.is_enabled:
+            return
         if self.startup_broadcast:
             self.log.debug('Sending startup UDP broadcast.')
             for port in self.ports:
